@@ -359,6 +359,13 @@ func proofToPath(
 				return nil, nil, err
 			}
 		case *trienode.ValueNode:
+			// Same rule as in VerifyProof: a value is a leaf only once the whole key has been
+			// consumed, otherwise an inner node's hash could be served as a key's value.
+			if keyBits.Len() != 0 {
+				return nil, nil, fmt.Errorf(
+					"proof value node above the leaf level, %d key bits left", keyBits.Len(),
+				)
+			}
 			val = (*felt.Felt)(n)
 		}
 		// Link the parent and child
